@@ -391,7 +391,9 @@ int parse_instruction_msp430(AsmContext *asm_context, char *instr)
       printf("Warning: Instruction doesn't start on 16 bit boundary at %s:%d.  Padding with a 0.\n", asm_context->tokens.filename, asm_context->tokens.line);
     }
 
-    asm_context->memory_write_inc(0, DL_NO_CG);
+    // The pad is a byte of the image: mark it as data so that the listing
+    // shows it in the data dump (nothing else would list it).
+    asm_context->memory_write_inc(0, DL_DATA);
   }
 
   // check for RPT prefix
